@@ -2,7 +2,7 @@
 (* Type IIS restriction enzymes and what they do to a circular plasmid.
 
    An enzyme is its geometry  enz = [site, off, ovh] :  recognition site
-   (nucleotides only), number of nucleotides between the site and the cut of
+   (nucleotides, or ambiguity codes standing for their IUPAC sets), number of nucleotides between the site and the cut of
    the top strand, and length of the 5' overhang (the bottom strand is cut ovh
    nucleotides further).  Everything here is defined from sites and cut
    positions only - never from the structure patterns of the classes - which
@@ -10,8 +10,8 @@
 EXTENDS DNA
 
 \* 0-based cyclic positions of forward / reverse occurrences of the site (case-insensitive)
-FwdSites(w, enz) == LET u == UpperW(w) IN {p \in 0..(Len(w) - 1) : AtCirc(u, p, enz.site)}
-RevSites(w, enz) == LET u == UpperW(w)  r == RC(enz.site) IN {p \in 0..(Len(w) - 1) : AtCirc(u, p, r)}
+FwdSites(w, enz) == LET u == UpperW(w) IN {p \in 0..(Len(w) - 1) : SiteAtCirc(u, p, enz.site)}
+RevSites(w, enz) == LET u == UpperW(w)  r == RC(enz.site) IN {p \in 0..(Len(w) - 1) : SiteAtCirc(u, p, r)}
 \* top-strand cut = position of the first nucleotide of the sticky end
 FwdCut(w, enz, p) == (p + Len(enz.site) + enz.off) % Len(w)
 RevCut(w, enz, q) == (q - enz.off - enz.ovh) % Len(w)
@@ -22,8 +22,8 @@ Between(w, a, b)  == CycSlice(w, a, a + ((b - a) % Len(w)))
 
 \* Bio.Restriction's rule for a LINEAR digest (what the illegal-site screen uses):
 \* sites are searched on the linear string, a cut counts iff the cuts of both strands fall inside (1, len].
-LinFwd(r, enz) == LET u == UpperW(r) IN {p \in 0..(Len(r) - Len(enz.site)) : AtLin(u, p, enz.site)}
-LinRev(r, enz) == LET u == UpperW(r)  s == RC(enz.site) IN {p \in 0..(Len(r) - Len(enz.site)) : AtLin(u, p, s)}
+LinFwd(r, enz) == LET u == UpperW(r) IN {p \in 0..(Len(r) - Len(enz.site)) : SiteAtLin(u, p, enz.site)}
+LinRev(r, enz) == LET u == UpperW(r)  s == RC(enz.site) IN {p \in 0..(Len(r) - Len(enz.site)) : SiteAtLin(u, p, s)}
 LinCuts(r, enz) ==
   LET len == Len(r)
       cf == {p + Len(enz.site) + enz.off + 1 : p \in LinFwd(r, enz)}
